@@ -298,7 +298,7 @@ def generate(tier, seed):
         for prof in singles + pairs:
             enc(a, prof, exh=1 if (thorough or m < 3) else 0, family="enc-exh")
     for i in range(40 if not thorough else 400):
-        m = rng.randint(2, 5)
+        m = rng.choice([2, 3, 3, 4, 4, 5, 5])
         alts = rand_perm(rng, rng.sample(range(1, rng.choice([8, 40, 10 ** 6])), m))
         weak = (i % 2 == 1)
         fam = ["vot-planted", "alt-planted", "random", "toptie"][i % 4]
@@ -685,19 +685,30 @@ def _multiset_diff(a, b):
 
 
 def _enc_judge(c, r, mres):
+    """A difference means that the encoding theorems (about the mirrored model) no longer speak about the model the code
+    builds: kind broken-correspondence (DESIGN 4: concrete failures found by the c12.opt campaign of the same run are
+    reported first; otherwise `no-failing-input-found`)."""
     kind = c["payload"][0]
     fn = KIND[kind]
     M = _canon_model_answer(mres[0])
+    thm = {0: "ilp_sp_sound / ilp_sp_complete", 1: "ilp_votdel_sound / ilp_votdel_complete / ilp_votdel_optimum",
+           2: "ilp_altdel_sound / ilp_altdel_complete / ilp_altdel_optimum"}[kind]
+
+    def bc(msg):
+        return {"kind": "broken-correspondence", "theorem": thm,
+                "reason": "the ILP built by %s differs from the mirrored model of Model/ILPEnc.v (%s no longer apply "
+                          "to the code): %s" % (fn, thm, msg)}
     if r["sense"] != "MIN":
-        return _mm("ilp_encoding", "%s: optimisation sense %s" % (fn, r["sense"]))
+        return bc("optimisation sense %s" % r["sense"])
     if r["vars"] != M["vars"]:
-        return _mm("ilp_encoding", "%s: variables / bounds differ: only in the implementation %s, only in the mirror %s"
-                   % (fn, _multiset_diff(r["vars"], M["vars"])[:4], _multiset_diff(M["vars"], r["vars"])[:4]))
+        return bc("variables / bounds: only in the implementation %s, only in the mirror %s"
+                  % (_multiset_diff(r["vars"], M["vars"])[:4], _multiset_diff(M["vars"], r["vars"])[:4]))
     if r["cstrs"] != M["cstrs"]:
-        return _mm("ilp_encoding", "%s: constraint multisets differ (x2): only in the implementation %s, only in the mirror %s"
-                   % (fn, _multiset_diff(r["cstrs"], M["cstrs"])[:4], _multiset_diff(M["cstrs"], r["cstrs"])[:4]))
+        return bc("constraint multisets (coefficients x2; var codes 0 leftof, 1 pos, 2 delVoter, 3 delAlt): only in "
+                  "the implementation %s, only in the mirror %s"
+                  % (_multiset_diff(r["cstrs"], M["cstrs"])[:4], _multiset_diff(M["cstrs"], r["cstrs"])[:4]))
     if r["obj"] != M["obj"] or r["obj_const"] != 0.0:
-        return _mm("ilp_encoding", "%s: objective %r (+%r), mirror %r" % (fn, r["obj"], r["obj_const"], M["obj"]))
+        return bc("objective %r (+%r), mirror %r" % (r["obj"], r["obj_const"], M["obj"]))
     return None
 
 
